@@ -43,7 +43,9 @@ var decls = []declKey{
 var filePaths = []string{"/sim/fileA.go", "/sim/fileB.go", "/sim/fileC.go"}
 
 var prims = []common.PrimitiveType{common.PrimitiveTypeString, common.PrimitiveTypeInt, common.PrimitiveTypeBool}
-var edgeKinds = []symboldg.SymbolEdgeKind{symboldg.EdgeKindType, symboldg.EdgeKindReference, symboldg.EdgeKindField, symboldg.EdgeKindReceiver}
+// the last two kinds are spelled so that one name is a suffix of the other ("param" / "typaram")
+var edgeKinds = []symboldg.SymbolEdgeKind{symboldg.EdgeKindType, symboldg.EdgeKindReference, symboldg.EdgeKindField, symboldg.EdgeKindReceiver,
+	symboldg.EdgeKindParam, symboldg.EdgeKindTypeParameter}
 
 func fileVersion(file, v int) *gast.FileVersion {
 	return &gast.FileVersion{Path: filePaths[file], ModTime: time.Unix(int64(1_700_000_000+v*100), 0), Hash: fmt.Sprintf("hash-%d-%d", file, v)}
@@ -253,8 +255,8 @@ var variants = func() []variant {
 	for _, k := range edgeKinds {
 		vs = append(vs, variant{id: string(k), edgeKinds: []symboldg.SymbolEdgeKind{k}, desc: true})
 	}
-	for i := range edgeKinds {
-		for j := range edgeKinds {
+	for i := range edgeKinds[:4] {
+		for j := range edgeKinds[:4] {
 			if i != j {
 				ks := []symboldg.SymbolEdgeKind{edgeKinds[i], edgeKinds[j]}
 				vs = append(vs, variant{id: name(ks), edgeKinds: ks, desc: i < j})
@@ -262,6 +264,7 @@ var variants = func() []variant {
 		}
 	}
 	vs = append(vs, variant{id: name(edgeKinds), edgeKinds: edgeKinds, desc: true})
+	vs = append(vs, variant{id: "param+typaram", edgeKinds: []symboldg.SymbolEdgeKind{symboldg.EdgeKindParam, symboldg.EdgeKindTypeParameter}, desc: true})
 	// a kind no edge of the simulation carries
 	vs = append(vs, variant{id: "call", edgeKinds: []symboldg.SymbolEdgeKind{symboldg.EdgeKindCall}, desc: true})
 	for _, nk := range []common.SymKind{common.SymKindStruct, common.SymKindField, common.SymKindBuiltin} {
